@@ -270,7 +270,7 @@ def rel_check(c, resp):
 def run(rep, tier, seed):
     rnd = random.Random(seed)
     rep.assumptions += ["reference boxes / sizes / gaps are drawn from a bounded grid of quarter units (negative values included)",
-                        "h/v placement only against elements with a bounding box; scalar kinds r/rx/ry excluded"]
+                        "h/v placement only against elements with a bounding box"]
     recs = geom.run_geom_family(rep, "rel", tier, ["RelIdentities"])
     limit = 12000 if tier == "quick" else len(recs)
     if len(recs) > limit:
